@@ -1,5 +1,7 @@
 import AlgoVerif.Model.C07
 import AlgoVerif.Model.C07Radix
+import AlgoVerif.Model.C07Sub
+import AlgoVerif.Proofs.C07Fast
 import AlgoVerif.Spec.C07
 /-!
 Line-protocol component for C07.
@@ -16,6 +18,19 @@ Machine words are decimal (`int`: signed), strings are `x<hex>`.
     shuffle <c0,c1,…|-> e…    Shuffle with the scripted results of r.Intn
     sort lsduint|msduint|lsdint|msdint w…      sort msdstring|q3string s…      lsdstring <w> s…
     msdintat|msduintat|msdstringat|q3stringat <lo> <hi> <d> …   (hooks exposing the recursive cores)
+
+Threshold sweeps: the input is *described* (length, value mix, seed) and expanded here exactly as the harness expands
+it (splitmix64; `genElems`, `genWords`, `genStrs` below mirror `harness/c07`), the answer is a digest of the result:
+
+    gsort <algo> <n> <mix> <seed> [<L>]    `ok n=<n> h=<fnv-1a over the 64-bit words of the result, 16 hex digits>`
+    gselect <k> <n> <mix> <seed>           as `select`
+    gshuffle <n> <seed>                    choices `next() % (n-i)`, elements `i%5:i`
+    glsdstring <w> <n> <fix|fixlong|eq> <seed>
+
+Sub-slices of one backing array (`Model/C07Sub.lean`): the whole array is printed
+
+    sub <algo> <lo> <hi> e…                     sorts a[lo:hi]
+    alias <algo> <lo1> <hi1> <lo2> <hi2> e…     sorts a[lo1:hi1], then a[lo2:hi2]
 -/
 namespace AlgoVerif.C07.Driver
 open AlgoVerif AlgoVerif.C07
@@ -111,9 +126,250 @@ def showS (s : List UInt8) : String :=
 
 def zeroElem : Elem := (0, 0)
 
+/-! `Merge` / `MergeRec` run as `mergeBUFast` / `mergeRecFast` (`Proofs/C07Fast.lean`): the Model's functions with the
+whole-array `copyRange` replaced by an in-place copy of the range, proved equal to `mergeBU` / `mergeRec`
+(`mergeBUFast_eq`, `mergeRecFast_eq`; restated as `C07_driver_merge_is_model_merge`). -/
+
+/-! ### generated inputs and digests (mirror of `harness/c07`: `sm64`, `genElems`, `genWords`, `genStrs`, `digest*`) -/
+
+def smNext (s : UInt64) : UInt64 × UInt64 :=
+  let s := s + 0x9E3779B97F4A7C15
+  let z := s
+  let z := (z ^^^ (z >>> 30)) * 0xBF58476D1CE4E5B9
+  let z := (z ^^^ (z >>> 27)) * 0x94D049BB133111EB
+  (s, z ^^^ (z >>> 31))
+
+def genElems (n : Nat) (mix : String) (seed : UInt64) : Option (Array Elem) := Id.run do
+  if !(["eq", "asc", "desc", "few", "rand", "saw", "organ", "big"].contains mix) then return none
+  let (s, _) := smNext seed
+  let (s, _) := smNext s
+  let mut s := s
+  let mut out : Array Elem := Array.mkEmpty n
+  for i in [0:n] do
+    let (s', rnd) := smNext s
+    s := s'
+    let k : Int :=
+      if mix == "eq" then 7
+      else if mix == "asc" then i
+      else if mix == "desc" then (n : Int) - i
+      else if mix == "few" then (rnd.toNat % 3 : Nat)
+      else if mix == "rand" then ((rnd.toNat % (2 * n + 1) : Nat) : Int) - n
+      else if mix == "saw" then (i % 17 : Nat)
+      else if mix == "organ" then (Nat.min i (n - 1 - i) : Nat)
+      else rnd.toInt64.toInt / 4     -- arithmetic shift by 2 = floor division by 4
+    out := out.push (k, (i : Int))
+  return some out
+
+def genSpecials : Array UInt64 := #[0, 1, 0x7fffffffffffffff, 0x8000000000000000, 0xffffffffffffffff, 0x8000000000000001,
+  0xfffffffffffffffe, 0x0080000000000000, 0x007fffffffffffff, 0x0100000000000000, 0x0001000000000000, 0x10000, 0xffff,
+  255, 256, 0x100000000, 0x8080000000000000]
+
+def genWords (n : Nat) (mix : String) (seed : UInt64) (signed : Bool) : Option (Array UInt64) := Id.run do
+  if !(["eq", "asc", "desc", "full", "ext", "small", "dig", "hi"].contains mix) then return none
+  let (s, c0) := smNext seed
+  let (s, c1) := smNext s
+  let step : UInt64 := 0xffffffffffffffff / UInt64.ofNat (Nat.max n 1)
+  let flip : UInt64 := if signed then 0x8000000000000000 else 0
+  let mut s := s
+  let mut out : Array UInt64 := Array.mkEmpty n
+  for i in [0:n] do
+    let (s', rnd) := smNext s
+    s := s'
+    let v : UInt64 :=
+      if mix == "eq" then c0
+      else if mix == "asc" then (UInt64.ofNat i * step) ^^^ flip
+      else if mix == "desc" then (UInt64.ofNat (n - 1 - i) * step) ^^^ flip
+      else if mix == "full" then rnd
+      else if mix == "ext" then genSpecials[(rnd % UInt64.ofNat genSpecials.size).toNat]!
+      else if mix == "small" then rnd % 41 - 20
+      else if mix == "dig" then
+        let sh := c1 % 49
+        (c0 &&& ~~~((0xffff : UInt64) <<< sh)) ||| ((rnd &&& 0xffff) <<< sh)
+      else (rnd <<< 48) ||| (c0 &&& 0xffff)
+    out := out.push v
+  return some out
+
+def genAlpha : Array UInt8 := #[0x00, 0x61, 0x62, 0xfe, 0xff]
+
+def genTail (rnd : UInt64) (t : Nat) : List UInt8 :=
+  (List.range t).map fun k => genAlpha[((rnd >>> UInt64.ofNat (8 * (k + 1))) % 5).toNat]!
+
+def genStrs (n : Nat) (mix : String) (seed : UInt64) (L : Nat) : Option (Array (List UInt8)) := Id.run do
+  if !(["eq", "pre", "chain", "rand", "fix", "fixlong"].contains mix) then return none
+  let (s, c0) := smNext seed
+  let (s, c1) := smNext s
+  let fill : UInt8 := (#[0x00, 0xff, 0x61] : Array UInt8)[(c0 % 3).toNat]!
+  let P : List UInt8 := (List.range L).map fun j =>
+    if (c1 >>> UInt64.ofNat (j % 64)) &&& 1 == 1 then genAlpha[j % 5]! else fill
+  let mut s := s
+  let mut out : Array (List UInt8) := Array.mkEmpty n
+  for _ in [0:n] do
+    let (s', rnd) := smNext s
+    s := s'
+    let t := Nat.min L 3
+    let b : List UInt8 :=
+      if mix == "eq" then P
+      else if mix == "pre" then P ++ genTail rnd (rnd % 4).toNat
+      else if mix == "chain" then P.take (rnd.toNat % (L + 1))
+      else if mix == "rand" then genTail rnd (rnd % 5).toNat
+      else if mix == "fix" then P.take (L - t) ++ genTail rnd t
+      else P.take (L - t) ++ genTail rnd t ++ genTail (rnd >>> 32) (rnd % 3).toNat
+    out := out.push b
+  return some out
+
+def fnvOffset : UInt64 := 0xcbf29ce484222325
+def fnvPrime : UInt64 := 0x100000001b3
+def fnvStep (h x : UInt64) : UInt64 := (h ^^^ x) * fnvPrime
+
+def wordOfInt (i : Int) : UInt64 := (Int64.ofInt i).toUInt64
+
+def digestElems (a : Array Elem) : UInt64 :=
+  a.foldl (fun h e => fnvStep (fnvStep h (wordOfInt e.1)) (wordOfInt e.2)) fnvOffset
+
+def digestWords (a : Array UInt64) : UInt64 := a.foldl fnvStep fnvOffset
+
+def digestStrs (a : Array (List UInt8)) : UInt64 :=
+  a.foldl (fun h s => fnvStep (s.foldl (fun h b => fnvStep h b.toUInt64) h) 0x1ff) fnvOffset
+
+def hex16 (v : UInt64) : String :=
+  String.ofList ((List.range 16).map fun i => hexDigit ((v >>> UInt64.ofNat (4 * (15 - i))) &&& 0xf).toNat)
+
+def showDigest (n : Nat) (h : UInt64) : String := s!"ok n={n} h={hex16 h}"
+
+/-- the comparison sorts by name (`quick`: without the shuffle, runs of comparator-equal elements canonicalised by the caller) -/
+def elemSort (cmp : Elem → Elem → Int) (algo : String) : Option (Array Elem → Outcome (Array Elem)) :=
+  match algo with
+  | "selection" => some (selection cmp)
+  | "insertion" => some (insertion cmp)
+  | "shell" => some (shell cmp)
+  | "merge" => some (mergeBUFast cmp zeroElem)
+  | "mergerec" => some (mergeRecFast cmp zeroElem)
+  | "quick3way" => some (quick3Way cmp)
+  | "heap" => some (heap cmp zeroElem)
+  | "quickcore" => some (quickCore cmp)
+  | "quick" => some (quick (fun _ => 0) cmp)
+  | _ => none
+
+def wordSortOf (algo : String) : Option (Array UInt64 → Outcome (Array UInt64)) :=
+  match algo with
+  | "lsduint" => some lsdUint
+  | "msduint" => some msdUint
+  | "lsdint" => some lsdInt
+  | "msdint" => some msdInt
+  | _ => none
+
+def strSortOf (algo : String) : Option (Array (List UInt8) → Outcome (Array (List UInt8))) :=
+  match algo with
+  | "msdstring" => some msdString
+  | "q3string" => some (q3String (fun _ => 0))
+  | _ => none
+
+def signedAlgo (algo : String) : Bool := algo == "lsdint" || algo == "msdint"
+
+def parseSeed (s : String) : Option UInt64 := s.toNat?.map UInt64.ofNat
+
+/-- `gsort` / `gselect` / `gshuffle` / `glsdstring` -/
+def runGen (cmpName : String) (ws : List String) : String :=
+  let cmp := cmpOf cmpName
+  match ws with
+  | "gsort" :: algo :: n :: mix :: seed :: rest =>
+    match n.toNat?, parseSeed seed with
+    | some n, some seed =>
+      match wordSortOf algo, strSortOf algo, elemSort cmp algo with
+      | some f, _, _ =>
+        match genWords n mix seed (signedAlgo algo) with
+        | some a => render (fun out => showDigest n (digestWords out)) (f a)
+        | none => "bad-op"
+      | _, some f, _ =>
+        match rest with
+        | l :: _ =>
+          match l.toNat? with
+          | some l =>
+            match genStrs n mix seed l with
+            | some a => render (fun out => showDigest n (digestStrs out)) (f a)
+            | none => "bad-op"
+          | none => "bad-op"
+        | [] => "bad-op"
+      | _, _, some f =>
+        match genElems n mix seed with
+        | some a =>
+          render (fun out => showDigest n (digestElems (if algo == "quick" then canonRuns cmp out else out))) (f a)
+        | none => "bad-op"
+      | _, _, _ => "bad-op"
+    | _, _ => "bad-op"
+  | ["gselect", k, n, mix, seed] =>
+    match k.toInt?, n.toNat?, parseSeed seed with
+    | some k, some n, some seed =>
+      match genElems n mix seed with
+      | some a => render (fun (r : Array Elem × Elem) => s!"ok {cls cmpName r.2.1}") (select (fun _ => 0) cmp a k)
+      | none => "bad-op"
+    | _, _, _ => "bad-op"
+  | ["gshuffle", n, seed] =>
+    match n.toNat?, parseSeed seed with
+    | some n, some seed => Id.run do
+      let mut s := seed
+      let mut cs : Array Int := Array.mkEmpty n
+      let mut a : Array Elem := Array.mkEmpty n
+      for i in [0:n] do
+        let (s', rnd) := smNext s
+        s := s'
+        cs := cs.push ((rnd.toNat % (n - i) : Nat) : Int)
+        a := a.push (((i % 5 : Nat) : Int), (i : Int))
+      return render (fun out => showDigest n (digestElems out)) (shuffle (choiceFn cs) a)
+    | _, _ => "bad-op"
+  | ["glsdstring", w, n, mix, seed] =>
+    match w.toNat?, n.toNat?, parseSeed seed with
+    | some w, some n, some seed =>
+      if mix != "fix" && mix != "fixlong" && mix != "eq" then "bad-op" else
+      match genStrs n mix seed w with
+      | some a => render (fun out => showDigest n (digestStrs out)) (lsdString a w)
+      | none => "bad-op"
+    | _, _, _ => "bad-op"
+  | _ => "bad-op"
+
+/-- `sub` / `alias`: `rg` is the list of `lo hi` pairs, sorted one after the other on the same array -/
+def runSub (cmpName : String) (algo : String) (rg : List (Int × Int)) (rest : List String) : String :=
+  let cmp := cmpOf cmpName
+  let go {β : Type} (f : Array β → Outcome (Array β)) (a : Array β) : Outcome (Array β) :=
+    rg.foldl (fun acc r => acc.bind fun a => onSub f a r.1 r.2) (.ok a)
+  match wordSortOf algo, strSortOf algo, elemSort cmp algo with
+  | some f, _, _ =>
+    let (p, sh) := if signedAlgo algo then (parseI, showI) else (parseU, showU)
+    match parseAll p rest with
+    | some a => render (showArr sh) (go f a)
+    | none => "bad-op"
+  | _, some f, _ =>
+    match parseAll parseS rest with
+    | some a => render (showArr showS) (go f a)
+    | none => "bad-op"
+  | _, _, some f =>
+    match parseAll parseElem rest with
+    | some a =>
+      -- the public Quick: runs of comparator-equal elements inside the range sorted last are canonicalised
+      let canon (out : Array Elem) : Array Elem :=
+        match algo == "quick", rg.getLast? with
+        | true, some (lo, hi) =>
+          out.extract 0 lo.toNat ++ canonRuns cmp (out.extract lo.toNat hi.toNat) ++ out.extract hi.toNat out.size
+        | _, _ => out
+      render (fun out => showArr showElem (canon out)) (go f a)
+    | none => "bad-op"
+  | _, _, _ => "bad-op"
+
 def runOp (cmpName : String) (line : String) : String :=
   let cmp := cmpOf cmpName
   match words line with
+  | "gsort" :: rest => runGen cmpName ("gsort" :: rest)
+  | "gselect" :: rest => runGen cmpName ("gselect" :: rest)
+  | "gshuffle" :: rest => runGen cmpName ("gshuffle" :: rest)
+  | "glsdstring" :: rest => runGen cmpName ("glsdstring" :: rest)
+  | "sub" :: algo :: lo :: hi :: rest =>
+    match lo.toInt?, hi.toInt? with
+    | some lo, some hi => runSub cmpName algo [(lo, hi)] rest
+    | _, _ => "bad-op"
+  | "alias" :: algo :: lo1 :: hi1 :: lo2 :: hi2 :: rest =>
+    match lo1.toInt?, hi1.toInt?, lo2.toInt?, hi2.toInt? with
+    | some lo1, some hi1, some lo2, some hi2 => runSub cmpName algo [(lo1, hi1), (lo2, hi2)] rest
+    | _, _, _, _ => "bad-op"
   | "sort" :: algo :: rest =>
     let cmpSort (f : Array Elem → Outcome (Array Elem)) : String :=
       match parseAll parseElem rest with
@@ -131,8 +387,8 @@ def runOp (cmpName : String) (line : String) : String :=
     | "selection" => cmpSort (selection cmp)
     | "insertion" => cmpSort (insertion cmp)
     | "shell" => cmpSort (shell cmp)
-    | "merge" => cmpSort (mergeBU cmp zeroElem)
-    | "mergerec" => cmpSort (mergeRec cmp zeroElem)
+    | "merge" => cmpSort (mergeBUFast cmp zeroElem)
+    | "mergerec" => cmpSort (mergeRecFast cmp zeroElem)
     | "quick3way" => cmpSort (quick3Way cmp)
     | "heap" => cmpSort (heap cmp zeroElem)
     | "quickcore" => cmpSort (quickCore cmp)
